@@ -162,7 +162,7 @@ def findMiss (T : Tables) (v : Val) : Option String :=
   match strs.find? (fun s => (T.yaml.lookup s).isNone || (T.any.lookup s).isNone || (T.intof.lookup s).isNone) with
   | some s => some s
   | none =>
-    match ints.find? (fun i => i.natAbs ≥ 10 ^ 16 && (T.bigflt.lookup i).isNone) with
+    match ints.find? (fun i => i.natAbs > 2 ^ 53 && (T.bigflt.lookup i).isNone) with
     | some i => some (toString i)
     | none => none
 
@@ -205,7 +205,8 @@ def handle (j : Json) : Json :=
     let t ← tyOfJson (j.getObjValD "t")
     let v ← valOfJson (j.getObjValD "v")
     let T ← tablesOfJson (j.getObjValD "o")
-    match findMiss T v with
+    let pureItem := match j.getObjVal? "pure" with | .ok (.bool true) => true | _ => false
+    match (if pureItem then none else findMiss T v) with
     | some s => pure (Json.mkObj [("miss", .str s)])
     | none =>
       let O := T.oracle
